@@ -167,6 +167,13 @@ def run(ctx, R, tier):
     R.check(pub is not None and [v['name'] for v in pub['variants']] == STATES, 'B.SM.extract', 'public-variants',
             'sound::PlaybackState variants differ from the documented states', detail='PlaybackState has the 7 documented variants')
 
+    # the life-cycle commands are sent whatever the handle believes the state to be (the shared state lags by a callback)
+    from .c07 import write_unconditional
+    write_unconditional(F, R, rule='B.C03.cmd', floor=8, fn_filter=lambda p: ('sound::static_sound::handle' in p or 'sound::streaming::handle' in p)
+                        and p.split('::')[-1] in ('pause', 'resume', 'resume_at', 'stop'))
+    # a fade-driven step completes when its tween completes: the fade and start-time bookkeeping runs on every path of process
+    from .c06 import ungated
+    ungated(F, R, rule='B.C03.ungated')
     stvars = [v['name'] for v in (F.adt('start_time::StartTime') or {'variants': []})['variants']]
     other_start = frozenset(v for v in stvars if v != 'Immediate') or frozenset(['?'])
     methods = [('pause', 'pause', None), ('stop', 'stop', None), ('mark_as_stopped', 'mark_as_stopped', None),
